@@ -3,7 +3,20 @@
 import json, os
 V = os.path.dirname(os.path.dirname(os.path.abspath(__file__)))
 ALL = ["C%02d" % i for i in range(1, 21)]
+TB = "Trusted base: the harness's baseapp-equivalent delivery (branch, run, write on success, recover panics), the cosmos-sdk bank/auth keepers, and the independent ref implementation; rollback of rejected messages is never counted as evidence."
 CHECKS = {
+ "C01": dict(level="exploration", design="§3 C01",
+   text="Conservation ledger + isolation monitor evaluated after every message of seeded random multi-bridge histories over the real ophost handlers (all message types, valid and invalid, third-party sends, forged and cross-bridge claims): escrow == ledger for every id, exact per-account balance deltas, unchanged supply, byte-identical views and raw-key attribution for all other bridges. Held on the executions listed in the evidence.",
+   note=TB, technique="runtime reference-model monitor (conservation ledger, per-bridge view isolation) over random histories"),
+ "C05": dict(level="exploration", design="§3 C05",
+   text="Timeline monitor with a three-valued finality model in exact nanoseconds: a deterministic lattice drives an output of every accepted period to block times exactly at and one tick around T0+P and probes finalize/delete/query on branches; random timelines add propose/delete/re-propose/role interleavings; creation lattice offers zero, negative, sub-second and huge periods.",
+   note=TB+" Inside the 1-second band either answer is accepted.", technique="runtime timeline monitor with boundary-value lattice"),
+ "C10": dict(level="exploration", design="§3 C10",
+   text="Per-bridge sequence model, event/request/balance triple comparison and token-pair derivation (independent L2 denom) checked after every step of random histories interleaving bridge creation and deposits over ids that partly do not exist yet.",
+   note=TB, technique="runtime reference-model monitor over random histories"),
+ "C11": dict(level="exploration", design="§3 C11",
+   text="Structural invariant of the stored output log (contiguity, strictly increasing L2 blocks, monotone L1 times, final prefix, suffix-only deletion, agreement with a reference list) read through the paginated queries after every step of random propose/delete/re-propose histories with off-by-one indices and L2 blocks.",
+   note=TB, technique="runtime structural-invariant monitor at quiescent points"),
  "C17": dict(level="exploration", design="§3 C17",
    text="Differential monitor: every exported commitment/identifier function is compared, on lattice and random inputs, with an independent from-scratch Keccak/ADR-028 implementation that is itself pinned to python-hashlib vectors; purity is observed with canary arenas around every argument under four memory layouts of the proof list, at function level and through the real MsgFinalizeTokenWithdrawal handler. Held-on-observed-executions, not a proof.",
    note="Trusts python3 hashlib (vectors generated once, committed), Go's memory model for the canary arenas; hash collisions not searched.",
